@@ -349,6 +349,23 @@ pub fn history(ctx: &mut Ctx, rng: &mut Rng) {
 fn boundary(ctx: &mut Ctx, rng: &mut Rng, len: usize) {
     let mut hist = vec![format!("boundary sweep at length {len}")];
     let bits: Vec<bool> = (0..len).map(|_| rng.chance(1, 2)).collect();
+    // the Bit type and the integer / array constructors: a sequence built from 0/1 integers is the same sequence
+    {
+        let b2 = bits.clone();
+        let r = try_run(move || {
+            let conv_ok = Bit::from(true) == Bit::Bit1 && Bit::from(false) == Bit::Bit0 && Bit::from(1u8) == Bit::Bit1 && Bit::from(0i32) == Bit::Bit0 && Bit::from(1usize) == Bit::Bit1 && Bit::from(0u64) == Bit::Bit0
+                && Bit::Bit0.is_zero() && !Bit::Bit0.is_one() && Bit::Bit1.is_one() && !Bit::Bit1.is_zero() && Bit::Bit0.as_u64() == 0 && Bit::Bit1.as_u64() == 1;
+            let from_u8 = BitSeq::from_iter(b2.iter().map(|&b| b as u8));
+            let from_i64 = BitSeq::from_iter(b2.iter().map(|&b| b as i64));
+            let from_bool = BitSeq::from_iter(b2.iter().cloned());
+            let single = (BitSeq::from(true), BitSeq::from(0u8), BitSeq::from([1u8, 0, 1]));
+            (conv_ok, from_u8 == from_bool && from_i64 == from_bool, single.0.len() == 1 && single.0.as_u64() == 1 && single.1.len() == 1 && single.1.as_u64() == 0 && single.2.len() == 3 && single.2.as_u64() == 0b101)
+        });
+        match r {
+            Outcome::Val((a, b, c)) => if !(a && b && c) { ctx.violation("C17/bit-conversions", &format!("Bit / integer constructors disagree: conversions ok = {a}, from_iter over integers = from_iter over bools: {b}, From<T> / From<[T; N]> ok = {c}"), json!({"bits": model_str(&bits)})); return },
+            Outcome::Panic(p) => { ctx.violation("C17/bit-conversions-panic", &format!("Bit / integer constructors panicked: {p}"), json!({"bits": model_str(&bits)})); return }
+        }
+    }
     let val = model_val(&bits);
     let mut good = true;
     let checks: Vec<(&str, Box<dyn Fn() -> BitSeq>, Vec<bool>)> = vec![
